@@ -53,7 +53,7 @@ def strategy_for(t):
                     items.append(it)
                 spec[key] = items
                 spec["_chmode"] = "explicit"
-            return {"spec": spec}
+            return {"spec": spec, "origin": draw(st.sampled_from(["built", "built", "decoded"]))}
 
         return cases()
 
@@ -66,6 +66,11 @@ def make_run(t):
         ok, b = ctx.must(lambda: specs.build(spec), "build", f"constructing a valid {t} block")
         if not ok:
             return
+        if case.get("origin") == "decoded":
+            # the same questions asked of a block that came out of the decoder (labels and containers as the decoder makes them)
+            ok, b = ctx.must(lambda: specs.lib_decode(t, spec["format"], specs.lib_write(b))[0], "decode", f"decoding a valid {t} block")
+            if not ok:
+                return
         before = specs.lib_write(b)
         items = list(iter(b))
         n = len(items)
@@ -125,6 +130,18 @@ def make_run(t):
                 continue
             if not inside:
                 ctx.fail("membership-item-false", f"{t}: iterated item {i} is reported as not contained")
+        # lookups issued while an iteration is in progress must neither disturb it nor be disturbed by it
+        seen = []
+        for i, it in enumerate(b):
+            seen.append(it)
+            want = next(x for x in items if x.label == it.label)
+            try:
+                if b[it.label] is not want or b[i] is not it or it.label not in b:
+                    ctx.fail("lookup-during-iteration", f"{t}: lookups made while iterating (position {i}, label {it.label!r}) disagree with the iterated items")
+            except Exception as e:  # noqa
+                ctx.fail("lookup-during-iteration-raises", f"{t}: a lookup made while iterating raised {type(e).__name__}: {e}")
+        if [id(x) for x in seen] != [id(x) for x in items]:
+            ctx.fail("iteration-disturbed-by-lookups", f"{t}: an iteration during which lookups were made yielded {len(seen)} items instead of {n}")
         # foreign key types
         import decimal
         import fractions
@@ -227,7 +244,7 @@ def make_run(t):
                 ctx.fail("after-remove/membership-stale", f"{t}: after removing the first item, membership of its label is stale")
         dup = len(set(labels)) < len(labels)
         ctx.case(case, dup, labels=[t, f"items={min(n, 3)}{'+' if n >= 3 else ''}", "duplicate-label" if dup else "unique-labels",
-                                    "empty-label" if "" in labels else "no-empty-label"])
+                                    "empty-label" if "" in labels else "no-empty-label", "origin:" + case.get("origin", "built")])
 
     return run
 
